@@ -55,7 +55,13 @@ _env_cache = None
 def env():
     global _env_cache
     if _env_cache is None:
+        if not os.path.isdir(os.path.join(hailenv.resources_dir(), 'reference')) and os.path.isdir('/repo/hail/hail/resources/reference'):
+            # scratch copies of the tree (tools/mutate.py) carry the Python sources only; the reference-genome JSON is data
+            hailenv.resources_dir = lambda: '/repo/hail/hail/resources'
         hl = hailenv.init()
+        for g in GENOMES:
+            if len(hl.get_reference(g).contigs) < 25:
+                raise RuntimeError(f'{g}: reference genome resources not found (synthetic fallback in use)')
         from hail.vds.combiner import variant_dataset_combiner as m
         from hail.vds.combiner import combine as cm
         from hail.utils.java import Env
@@ -739,7 +745,9 @@ def execute(case, crashes):
                   gvcf_external_header=hdr, gvcf_sample_names=names, gvcf_save_filters=sf,
                   gvcf_reference_entry_fields_to_keep={'DP', 'GQ', 'MIN_DP'} if case.get('ref_fields_given', True) else None,
                   gvcf_info_to_keep={'MQ', 'QD'} if case.get('info_given') else None,
-                  branch_factor=bf, gvcf_batch_size=batch, reference_genome=rg if case.get('rg_object') else gname)
+                  branch_factor=bf, gvcf_batch_size=batch, reference_genome=rg if case.get('rg_object') else gname,
+                  target_records=10_000 + n_in if case.get('info_given') else 24_000,
+                  contig_recoding={'1': 'chr1', 'MT': 'chrM'} if case.get('info_given') and gname == 'GRCh38' else None)
         if case.get('use_interval_size'):
             kw['import_interval_size'] = isz
         else:
@@ -836,7 +844,17 @@ def _check_roundtrip(w, m, c, resave=True):
         if disk != a:
             diff = sorted(k for k in set(a) | set(disk) if a.get(k) != disk.get(k))
             w.failure('saved-json-differs-' + '-'.join(diff)[:60], 'the saved JSON is to_dict()', f'fields {diff}')
-    # configuration that the resumed run needs (the class's own __eq__ domain), beyond to_dict
+    # the class's own __eq__ domain: every serialized slot survives (bins of _vdses are recomputed, so compared as a multiset)
+    for slot in type(c).__serialized_slots__:
+        if slot == '_gvcf_save_filters':
+            continue
+        va, vb = getattr(c, slot), getattr(c2, slot)
+        if slot == '_vdses':
+            va = sorted(tuple(md) for b in va for md in va[b])
+            vb = sorted(tuple(md) for b in vb for md in vb[b])
+        if va != vb:
+            w.failure('resume-loses' + slot.replace('_', '-'), 'a combiner resumed from its plan continues with the same configuration',
+                      f'{slot}: {str(va)[:150]!r} before save, {str(vb)[:150]!r} after load')
     for slot in ('_gvcf_save_filters',):
         if getattr(c, slot) != getattr(c2, slot):
             w.failure('resume-loses' + slot.replace('_', '-'), 'a combiner resumed from its plan continues with the same configuration',
@@ -880,8 +898,8 @@ class _Watchdog:
 
     def __enter__(self):
         try:
-            self.old = signal.signal(signal.SIGALRM, self._fire)
-            signal.setitimer(signal.ITIMER_REAL, self.seconds)
+            self.old = signal.signal(signal.SIGVTALRM, self._fire)
+            signal.setitimer(signal.ITIMER_VIRTUAL, self.seconds)
             self.armed = True
         except (ValueError, AttributeError):
             pass
@@ -893,8 +911,8 @@ class _Watchdog:
 
     def __exit__(self, *exc):
         if self.armed:
-            signal.setitimer(signal.ITIMER_REAL, 0)
-            signal.signal(signal.SIGALRM, self.old)
+            signal.setitimer(signal.ITIMER_VIRTUAL, 0)
+            signal.signal(signal.SIGVTALRM, self.old)
         return False
 
 
@@ -909,62 +927,59 @@ def check_part_b(case):
                 fails.append((sig, cl, f'{msg} [{ctx}]'))
 
     try:
-        if True:
-            with _Watchdog(15.0):
-                base = execute(case, [])
-            classes |= base['classes']
-            add(base['fails'], 'uninterrupted run')
-            add(base['soft'], 'uninterrupted run')
-            n_soft = len(fails)
-            if base['rejected']:
-                return False, ['b', 'b_rejected_no_inputs'], fails
-            S = base['steps']
-            n_g, n_v = case['n_gvcfs'], len(case['vds_samples'])
-            if n_g and n_v:
-                classes.add('b_gvcfs_and_vdses')
-            if S >= 2:
-                classes.add('b_multi_round')
-            if S >= 4:
-                classes.add('b_ge4_rounds')
-            if case.get('ext_header') and n_g:
-                classes.add('b_external_header')
-            if len(fails) == n_soft and not base['fails']:
-                sched = []
-                rot = case['n_gvcfs'] + len(case['vds_samples']) + case['branch_factor']
-                ks = list(range(0, S + 1))
-                cap = case.get('resume_points', 5)
-                if len(ks) > cap:        # long plans: first, last two and points rotating with the case; all points in the thorough tier
-                    pick = {0, S, S - 1}
-                    j = 0
-                    while len(pick) < cap:
-                        pick.add(1 + (rot * 7 + j * 11) % (S - 1))
-                        j += 1
-                    ks = sorted(pick)
-                for k in ks:
-                    modes = (0, 1, 2) if case.get('all_modes') else ((k + rot) % 3,)
-                    for mode in modes:
-                        if k == 0 and mode == 0:
-                            mode = 1
-                        if k == S and mode != 0:
-                            mode = 0
-                        sched.append([dict(k=k, mode=mode, via='load' if (k + mode + rot) % 2 == 0 else 'new')])
-                if case.get('crashes'):
-                    sched.append([dict(c) for c in case['crashes']])
-                for crashes in sched:
-                    with _Watchdog(15.0):
-                        r = execute(case, crashes)
-                    classes |= r['classes']
-                    ctx = 'crash schedule ' + json.dumps(crashes, separators=(',', ':'))
-                    add(r['fails'], ctx)
-                    if not r['fails'] and r['final'] != base['final']:
-                        add([('resume-changes-final-provenance', 'resuming after any step yields the same final provenance',
-                              f'uninterrupted {sorted(base["final"].items())[:5]} vs resumed {sorted((r["final"] or {}).items())[:5]}')], ctx)
-                    if len(fails) > n_soft:
-                        break
-                    classes.add('b_resumed')
-            nontrivial = S >= 2 or (n_g > 0 and n_v > 0) or 'b_resumed' in classes
+        with _Watchdog(20.0):
+            base = execute(case, [])
+        classes |= base['classes']
+        add(base['fails'], 'uninterrupted run')
+        add(base['soft'], 'uninterrupted run')
+        n_soft = len(fails)
+        if base['rejected']:
+            return False, ['b', 'b_rejected_no_inputs'], fails
+        S = base['steps']
+        n_g, n_v = case['n_gvcfs'], len(case['vds_samples'])
+        if n_g and n_v:
+            classes.add('b_gvcfs_and_vdses')
+        if S >= 2:
+            classes.add('b_multi_round')
+        if S >= 4:
+            classes.add('b_ge4_rounds')
+        if case.get('ext_header') and n_g:
+            classes.add('b_external_header')
+        if len(fails) == n_soft and not base['fails']:
+            sched = []
+            rot = case['n_gvcfs'] + len(case['vds_samples']) + case['branch_factor']
+            ks = list(range(0, S + 1))
+            cap = case.get('resume_points', 5)
+            if len(ks) > cap:        # long plans: first, last two and points rotating with the case; all points in the thorough tier
+                mid = list(range(1, S - 1))
+                need = max(0, min(cap - 3, len(mid)))
+                stride = max(1, len(mid) // max(1, need))
+                ks = sorted({0, S, S - 1} | {mid[(rot + i * stride) % len(mid)] for i in range(need)})
+            for k in ks:
+                modes = (0, 1, 2) if case.get('all_modes') else ((k + rot) % 3,)
+                for mode in modes:
+                    if k == 0 and mode == 0:
+                        mode = 1
+                    if k == S and mode != 0:
+                        mode = 0
+                    sched.append([dict(k=k, mode=mode, via='load' if (k + mode + rot) % 2 == 0 else 'new')])
+            if case.get('crashes'):
+                sched.append([dict(c) for c in case['crashes']])
+            for crashes in sched:
+                with _Watchdog(20.0):
+                    r = execute(case, crashes)
+                classes |= r['classes']
+                ctx = 'crash schedule ' + json.dumps(crashes, separators=(',', ':'))
+                add(r['fails'], ctx)
+                if not r['fails'] and r['final'] != base['final']:
+                    add([('resume-changes-final-provenance', 'resuming after any step yields the same final provenance',
+                          f'uninterrupted {sorted(base["final"].items())[:5]} vs resumed {sorted((r["final"] or {}).items())[:5]}')], ctx)
+                if len(fails) > n_soft:
+                    break
+                classes.add('b_resumed')
+        nontrivial = S >= 2 or (n_g > 0 and n_v > 0) or 'b_resumed' in classes
     except Hang:
-        fails.append(('non-termination', 'run() terminates', 'a run did not finish within 15 s of wall time (watchdog)'))
+        fails.append(('non-termination', 'run() terminates', 'a run did not finish within 20 s of CPU time (watchdog)'))
         nontrivial = True
     return nontrivial, sorted(classes), fails
 
@@ -991,11 +1006,11 @@ def plan(tier):
     for g in GENOMES:
         specs.append(dict(kind='a_fixed', rg=g, sizes=FIXED_GENOME_SIZES + ([20_000] if q else [10_000, 20_000, 30_000, 50_000])))
     specs.append(dict(kind='a_fixed', rg='GRCh38' if q else 'GRCh37', sizes=[10_000]))
-    specs.append(dict(kind='a_hyp_genome', n=14 if q else 400, budget=32 if q else 1200))
-    for _ in range(2 if q else 3):
-        specs.append(dict(kind='a_hyp_contig', n=260 if q else 8000, budget=36 if q else 1200))
-    for _ in range(8 if q else 9):
-        specs.append(dict(kind='b_hyp', n=170 if q else 6000, budget=38 if q else 1300))
+    specs.append(dict(kind='a_hyp_genome', n=30 if q else 400, budget=28 if q else 1200))
+    for _ in range(2):
+        specs.append(dict(kind='a_hyp_contig', n=400 if q else 8000, budget=28 if q else 1200))
+    for _ in range(8):
+        specs.append(dict(kind='b_hyp', n=400 if q else 6000, budget=30 if q else 1300))
     return specs
 
 
